@@ -302,6 +302,36 @@ func checkC16(c C16Case, o *vcore.Obs) error {
 		}
 		return nil
 	}
+	// The same bound at the storage interface, independent of the gauges: a blob handed out by Load is in
+	// memory (compressed, then decoded) until its update is delivered and closed, or until a later download
+	// of the same instance replaces it - which is then itself in memory. Hence every instance with a
+	// successful download of a decodable blob AFTER the download behind its last delivery holds at least
+	// one blob or snapshot, and so does every delivered update the consumer has not closed yet.
+	loadBehindDelivery := map[string]int{} // instance -> log sequence of the download behind its last delivery
+	maxHeld := 0
+	checkHeld := func(where string) error {
+		holders := map[string]bool{}
+		for _, op := range b.Log() {
+			if op.Kind != "load" || !op.Applied || corrupt[op.Name] {
+				continue
+			}
+			ni, err := snapshot.ParseName(op.Name)
+			if err != nil || ni.SyncerName != db {
+				continue
+			}
+			if op.Seq > loadBehindDelivery[ni.InstanceID] {
+				holders[ni.InstanceID] = true
+			}
+		}
+		held := len(holders) + len(holding)
+		if held > maxHeld {
+			maxHeld = held
+		}
+		if held > c.LimitDown+c.LimitDecom {
+			return fmt.Errorf("%s: %d snapshots are held in memory (downloaded and not yet delivered for %d instances + %d delivered and not yet closed), the limits allow %d downloaded + %d decompressed", where, held, len(holders), len(holding), c.LimitDown, c.LimitDecom)
+		}
+		return nil
+	}
 	consume := func(where string) (bool, error) {
 		inst, u := r.Next()
 		if inst == "" {
@@ -352,6 +382,7 @@ func checkC16(c C16Case, o *vcore.Obs) error {
 		for _, op := range b.Log() {
 			if op.Kind == "load" && op.Applied && op.Name == name {
 				loadsOf++
+				loadBehindDelivery[inst] = op.Seq // (the latest one so far: an undercount of what is held at worst)
 			}
 		}
 		if deliveriesOf[name] > loadsOf {
@@ -426,6 +457,9 @@ func checkC16(c C16Case, o *vcore.Obs) error {
 		if err := checkGauges(step); err != nil {
 			return err
 		}
+		if err := checkHeld(step); err != nil {
+			return err
+		}
 	}
 
 	// ---- end phase: no faults, frozen bucket, consumer draining
@@ -463,6 +497,9 @@ func checkC16(c C16Case, o *vcore.Obs) error {
 			return err
 		}
 		if err := checkGauges("end phase"); err != nil {
+			return err
+		}
+		if err := checkHeld("end phase"); err != nil {
 			return err
 		}
 		done := true
@@ -548,6 +585,7 @@ func checkC16(c C16Case, o *vcore.Obs) error {
 		}
 	}
 	o.NonTrivial((c.NInst >= 4 && c.LimitDown == 1 && c.LimitDecom == 1) || (faultsUsed && superseded) || mixed)
+	o.ClassIf(maxHeld == c.LimitDown+c.LimitDecom, "memory-limits-reached")
 	o.ClassIf(nCorrupt > 0, "corrupt-blobs-present")
 	o.ClassIf(mixed, "instance-with-corrupt-and-valid")
 	o.ClassIf(faultsUsed, "list-or-load-faults")
@@ -598,7 +636,7 @@ func genC16(t *rapid.T) C16Case {
 
 func TestC16Receiver(t *testing.T) {
 	vcore.Run(t, vcore.Config{Property: "C16", Inflight: true,
-		Rule: "rapid state machine over a bucket and one real receiver.Receiver (Run in the background, 1 ms poll/retry): 2-6 instances incl. the receiver's own, memory limits 1-3, publishes of valid / undecodable blobs (not gzip, gzip around non-protobuf bytes, cut short, gzip around a truncated message), files of other databases whose names share a prefix with this one and unparsable names (never delivered), removals (vanish between listing and download), List/Load fault plans (fail / not-exist, <=3), consume (updates held and released later), waits; at every step the active-token gauges stay within the limits and every delivered update is a decodable newest snapshot of its instance at some point since its previous delivery, own snapshots only from the start-up listing; end phase (faults off, bucket frozen, draining consumer): every other instance's newest decodable snapshot arrives within a bounded time, then all tokens return to 0; undecodable blobs are downloaded at most once; " +
+		Rule: "rapid state machine over a bucket and one real receiver.Receiver (Run in the background, 1 ms poll/retry): 2-6 instances incl. the receiver's own, memory limits 1-3, publishes of valid / undecodable blobs (not gzip, gzip around non-protobuf bytes, cut short, gzip around a truncated message), files of other databases whose names share a prefix with this one and unparsable names (never delivered), removals (vanish between listing and download), List/Load fault plans (fail / not-exist, <=3), consume (updates held and released later), waits; at every step the active-token gauges stay within the limits, the number of snapshots held by storage-level accounting (downloads not yet delivered + deliveries not yet closed) stays within downloaded+decompressed limits, and every delivered update is a decodable newest snapshot of its instance at some point since its previous delivery, own snapshots only from the start-up listing; end phase (faults off, bucket frozen, draining consumer): every other instance's newest decodable snapshot arrives within a bounded time, then all tokens return to 0; undecodable blobs are downloaded at most once; " +
 			"non-trivial = >=3 other instances with limits 1/1, or faults + a snapshot superseded before being consumed, or an instance with both corrupt and valid blobs"},
 		genC16, checkC16)
 }
